@@ -10,6 +10,10 @@
 //! thread (dumps must be equal), a scan with rules importing every module, and
 //! for PE the section table with the (rva, offset) pairs visible in the output
 //! (entry point, exports, resources) for comparison with Modules/Rva.v.
+//! Boundary sweeps (`SWEEP` command of the child: one invocation per mutation,
+//! only failures reported one by one): every repository sample as it is under
+//! a tight time bound; every field located by the readers of ../c11/fields.rs
+//! set to every boundary value; every offset of the small samples.
 use std::io::{BufRead, BufReader, Read, Write};
 use std::panic::AssertUnwindSafe;
 use std::path::{Path, PathBuf};
@@ -65,7 +69,7 @@ fn child() -> i32 {
                 max_us = max_us.max(us);
                 match r {
                     Ok(()) => { if us > bound_us { n_slow += 1; writeln!(o, "SWFAIL {} {} slow {}", idx, k, us).unwrap(); } }
-                    Err(p) => { n_panic += 1; if n_panic <= 40 { writeln!(o, "SWFAIL {} {} panic {}", idx, k, p.lines().next().unwrap_or("").replace(' ', "_")).unwrap(); } }
+                    Err(p) => { n_panic += 1; if n_panic <= 400 { writeln!(o, "SWFAIL {} {} panic {}", idx, k, p.lines().next().unwrap_or("").replace(' ', "_")).unwrap(); } }
                 }
             }
             writeln!(o, "SWEND {} {} {} {} {} {}", idx, muts.len(), n_panic, n_slow, max_us, hwm_kb().max(rss_kb()).saturating_sub(rss0)).unwrap();
@@ -687,6 +691,17 @@ fn read_samples(dir: &Path, max_size: usize, max_n: usize, rng: &mut Rng) -> Vec
 }
 
 fn run(args: &[String]) -> i32 {
+    if let Some(dir) = arg_val(args, "--fields-report") {
+        // which kinds of field the readers of c11/fields.rs find in which sample
+        let mut r = Rng::new(1);
+        for (n, d) in read_samples(Path::new(&dir), usize::MAX, usize::MAX, &mut r) {
+            let f = fields::find(&d);
+            let mut kinds: std::collections::BTreeMap<String, usize> = Default::default();
+            for x in &f.fields { *kinds.entry(x.what.clone()).or_default() += 1; }
+            println!("{} {} len={} fields={} dict={:?} :: {}", f.fmt, n, d.len(), f.fields.len(), f.dict, kinds.iter().map(|(k, v)| format!("{}x{}", k, v)).collect::<Vec<_>>().join(" "));
+        }
+        return 0;
+    }
     let seed = arg_u64(args, "--seed", 1);
     let out_dir = arg_val(args, "--out").expect("--out");
     let sdir = arg_val(args, "--samples").expect("--samples");
